@@ -250,11 +250,12 @@ def enumerate_obligations(unit):
                 kk = ('closure%d' % k) if isinstance(k, int) else 'closures(%s)' % k
                 obs.append(dict(id='%s.ensures.%s.%s' % (base, kk, name), item=it.id, kind='ensures', props=list(it.props)))
         for k, spec in it.loops.items():
+            lk = ('loop%d' % k) if isinstance(k, int) else 'loop[%s]' % k
             for name, _e in spec.get('invariant', []):
-                obs.append(dict(id='%s.invariant.loop%d.%s' % (base, k, name), item=it.id, kind='invariant',
+                obs.append(dict(id='%s.invariant.%s.%s' % (base, lk, name), item=it.id, kind='invariant',
                                 props=list(it.props)))
             if spec.get('decreases'):
-                obs.append(dict(id='%s.termination.loop%d' % (base, k), item=it.id, kind='termination',
+                obs.append(dict(id='%s.termination.%s' % (base, lk), item=it.id, kind='termination',
                                 props=sorted(set(it.props) | set(it.safety_props))))
         if it.decreases:
             obs.append(dict(id='%s.termination' % base, item=it.id, kind='termination',
